@@ -60,6 +60,15 @@ func (g *vfGen) genC04() {
 		`{"a":{"b":{"c":{"d":`, `{"a":{"b":[1,2,{"c":`, deep, `[[[[[[`, `{"log":{"x":`, `{"type":`, `{"asset":{"version":`,
 		`{}`, `[]`, `{"x":1}`, ``, `   `, `{"type":"Nope"}`, `{"a":[1],"type":"Point"}`, `garbage`, `{"k":"` + strings.Repeat("x", 300),
 	}
+	// a parse released with more than 128 open containers (the pool's drop branch), then documents nested
+	// just below / above the recursion cap: the pooled state must still carry the cap
+	for _, tower := range []string{strings.Repeat("[", 4090) + strings.Repeat("]", 4090), strings.Repeat("[", 4100) + strings.Repeat("]", 4100),
+		strings.Repeat(`{"k":`, 4100) + "1" + strings.Repeat("}", 4100), strings.Repeat("[", 5000)} {
+		for _, d := range []string{deep, strings.Repeat("[", 300), strings.Repeat(`[{"a":`, 100)} {
+			g.emit("hist json:" + vfHex([]byte(d)) + ",json:" + vfHex([]byte(tower)) + ",geo:" + vfHex([]byte(d)) + ",geo:" + vfHex([]byte(tower)))
+			g.emit(fmt.Sprintf("dhist 0 %s,%s,%s,%s", vfHex([]byte(tower)), vfHex([]byte(d)), vfHex([]byte(tower)), vfHex([]byte(tower))))
+		}
+	}
 	n := g.pick(400, 20000)
 	for i := 0; i < n; i++ {
 		k := 2 + g.intn(12)
@@ -121,5 +130,19 @@ func (g *vfGen) genC04() {
 		a := append(append([]byte{}, base[:l]...), g.bytes(20)...)
 		b := append(append([]byte{}, base[:l]...), g.textBytes(30)...)
 		g.emit(fmt.Sprintf("dhist %d %s,%s,%s", l, vfHex(a), vfHex(b), vfHex(base[:l])))
+		// the byte right behind the limit is a line break in one variant and not in the other
+		c := append(append([]byte{}, base[:l]...), []byte("\n1,2\n")...)
+		d := append(append([]byte{}, base[:l]...), []byte("x1,2\n")...)
+		e := append(append([]byte{}, base[:l]...), []byte("\r\n\"")...)
+		g.emit(fmt.Sprintf("dhist %d %s,%s,%s,%s", l, vfHex(c), vfHex(d), vfHex(e), vfHex(base[:l])))
+	}
+	// tables (clean and ragged) cut inside every line, followed by a line break or not
+	for _, t := range []string{"a,b,c\n1,2,3\n4,5,6\n7,8,9\n", "a\tb\n1\t2\n3\t4\n5\t6\n", "{\"a\":1}\n{\"b\":2}\n{\"c\":3}\n", "a,b,c\r\n1,2,3\r\n4,5,6\r\n"} {
+		for l := 8; l < len(t); l++ {
+			base := []byte(t)[:l]
+			c := append(append([]byte{}, base...), []byte("\n")...)
+			d := append(append([]byte{}, base...), []byte("z")...)
+			g.emit(fmt.Sprintf("dhist %d %s,%s,%s", l, vfHex(c), vfHex(d), vfHex(base)))
+		}
 	}
 }
